@@ -25,6 +25,7 @@ DApply(fn, a) ==
       [] fn = "dflt" -> DMul(DConst(3), a[1])
       [] fn = "step" -> IF a[1][1] > 2 THEN DConst(1) ELSE DConst(0)
       [] fn = "pos"  -> IF a[1][1] >= 0 THEN DAdd(a[1], DConst(1)) ELSE DConst(0)
+      [] fn = "lg2"  -> DMul(DConst(3), a[1])
       [] fn = "dsum" -> a[1]
       [] fn = "add"  -> DAdd(a[1], a[2])
       [] fn = "sub"  -> DSub(a[1], a[2])
